@@ -69,6 +69,8 @@ type Outcome struct {
 	TypeDiffs   []Diff
 	CValDiffs   []Diff
 	DeclDiffs   []Diff
+	EmitDiffs   []Diff // programs that are not valid Go source but are accepted and lowered to valid Go: reported type vs go/types' type of the syntax the builder holds
+	NCmpEmit    int
 	FoldedBad   []Diff // builder carries a constant where go/types (on the source) has none / rejects the expression
 	Ops         int
 	OpKinds     map[string]int
@@ -299,6 +301,9 @@ func Build(u *ref.Universe, srcs []string, opt Opt) *Outcome {
 	if !o.Write(u, pkg, pkgPath) {
 		return o
 	}
+	if !opt.NoCompare && !o.SrcValid && len(o.OutErrs) == 0 && o.Out != nil && o.Out.Pkg != nil {
+		o.compareEmitted(u, c)
+	}
 	if opt.NoCompare || !o.SrcValid || len(o.OutErrs) > 0 {
 		return o
 	}
@@ -504,6 +509,83 @@ func (o *Outcome) compare(u *ref.Universe, c *fe.Compiler) {
 	}
 }
 
+// compareEmitted is the type oracle for programs that have no valid Go source (language extensions the builder lowers):
+// the syntax the builder holds for each recorded operand is printed and typed context-free by go/types in the emitted
+// package, at the end of the emitted function it belongs to; the builder's reported type must be identical.
+func (o *Outcome) compareEmitted(u *ref.Universe, c *fe.Compiler) {
+	if c.Recs == nil {
+		return
+	}
+	ends := map[string]token.Pos{}
+	for _, f := range o.Out.Files {
+		for _, d := range f.Decls {
+			if fd, ok := d.(*ast.FuncDecl); ok && fd.Body != nil {
+				k := fd.Name.Name
+				if fd.Recv != nil && len(fd.Recv.List) == 1 {
+					k = "(" + types.ExprString(fd.Recv.List[0].Type) + ")." + k
+				}
+				ends[k] = fd.Body.Rbrace
+			}
+		}
+	}
+	type item struct {
+		e   ast.Expr
+		rec fe.Rec
+	}
+	var items []item
+	for e, rec := range c.Recs {
+		if rec.Ref || rec.Val == nil || rec.Type == nil {
+			continue
+		}
+		items = append(items, item{e, rec})
+	}
+	sort.Slice(items, func(i, j int) bool {
+		if items[i].e.Pos() != items[j].e.Pos() {
+			return items[i].e.Pos() < items[j].e.Pos()
+		}
+		return items[i].e.End() < items[j].e.End()
+	})
+	for _, it := range items {
+		ve, ok := it.rec.Val.(ast.Expr)
+		if !ok {
+			continue
+		}
+		pos := token.NoPos
+		if it.rec.Fn != "" {
+			k := it.rec.Fn
+			if i := strings.Index(k, ".func@"); i >= 0 {
+				k = k[:i]
+			}
+			p, ok := ends[k]
+			if !ok {
+				continue
+			}
+			pos = p
+		}
+		es := types.ExprString(ve)
+		tv, err := types.Eval(u.Fset, o.Out.Pkg, pos, es)
+		if err != nil || tv.IsBuiltin() || tv.IsType() || tv.Type == nil || tv.Type == types.Typ[types.Invalid] {
+			continue
+		}
+		bt := it.rec.Type
+		if _, isTT := bt.(*gogen.TypeType); isTT {
+			continue
+		}
+		if it.rec.CommaOk {
+			if tup, ok := bt.(*types.Tuple); ok && tup.Len() == 2 {
+				bt = tup.At(0).Type()
+			}
+		}
+		if rt, ok := gogen.DerefType(bt); ok {
+			bt = rt
+		}
+		o.NCmpEmit++
+		if !ref.TypeEq(bt, tv.Type) {
+			o.EmitDiffs = append(o.EmitDiffs, Diff{es, TypeStr(it.rec.Type), TypeStr(tv.Type)})
+		}
+	}
+}
+
 // Summary renders the outcome for replay output.
 func (o *Outcome) Summary() string {
 	var sb strings.Builder
@@ -520,6 +602,9 @@ func (o *Outcome) Summary() string {
 	}
 	for _, d := range o.TypeDiffs {
 		fmt.Fprintf(&sb, "type diff: %s builder=%s go=%s\n", d.Expr, d.Builder, d.Go)
+	}
+	for _, d := range o.EmitDiffs {
+		fmt.Fprintf(&sb, "emitted-syntax type diff: %s builder=%s go=%s\n", d.Expr, d.Builder, d.Go)
 	}
 	for _, d := range o.CValDiffs {
 		fmt.Fprintf(&sb, "const diff: %s builder=%s go=%s\n", d.Expr, d.Builder, d.Go)
